@@ -161,6 +161,38 @@ Definition sql_vacuum (sc : sconn) (corder : list name) (before : time) : prog r
         Ret (with_tb sc tb' (sc_conn sc) (sc_joined sc), OK))
   end.
 
+Definition sql_set_deadline (sc : sconn) (dl : option time) : sconn :=
+  {| sc_conn := conn_update (sc_conn sc) (Some dl) None; sc_tb := sc_tb sc;
+     sc_explicit := sc_explicit sc; sc_joined := sc_joined sc |}.
+
+(* s3db_changes(from=A, to=B): both version lists are opened read-only (an empty list is the
+   empty table) and diffed; every entry that has a live row on the B side is yielded (fix
+   c39b758: soft-deleted rows are skipped; before, they were yielded and reading them failed
+   the query).  None = query error. *)
+Definition changes_rows (n : nat) (to_t from_t : tree (cval row)) : option (list (sval * list sval)) :=
+  fold_right (fun '(k, a, _) acc =>
+                match acc with
+                | None => None
+                | Some l =>
+                    match a with
+                    | Some v =>
+                        match payload v with
+                        | Some r => if del r then Some l else Some ((bridge_result k, row_values n r) :: l)
+                        | None => Some l
+                        end
+                    | None => Some l
+                    end
+                end) (Some []) (raw_diff cfg to_t from_t).
+
+Definition sql_changes (sc : sconn) (from to : list name) : prog row (option (list (sval * list sval))) :=
+  match sc_tb sc with
+  | None => Fail 3
+  | Some tb =>
+      bind (open cfg true (Some from) now [] []) (fun hf =>
+        bind (open cfg true (Some to) now [] []) (fun ht =>
+          Ret (changes_rows (tb_ncols tb) (h_tree ht) (h_tree hf))))
+  end.
+
 Definition sql_set_write_time (sc : sconn) (wt : option time) : sconn :=
   {| sc_conn := conn_update (sc_conn sc) None (Some wt); sc_tb := sc_tb sc;
      sc_explicit := sc_explicit sc; sc_joined := sc_joined sc |}.
